@@ -432,6 +432,10 @@ def run(ck, prog, ctx):
                                             lits2.add(str(x2[2]).strip('"'))
                                 if key_of(roots2) == ["is_obsolete"] and "true" in lits2:
                                     guard = ct2
+            # ... and what is stored on that edge is `true` (the term is created with the flag clear)
+            for pos_, st_ in tf.stmts():
+                if st_.k == "assign" and "*" in st_.place.fields() and st_.place.local == t.dest.local and st_.ops and st_.ops[0].kind == "const" and (st_.ops[0].const or {}).get("ty") == "bool":
+                    ck.ob("ROLE", "obo/obsolete-value", st_.ops[0].const.get("val") == "true", "the obsolete flag is stored as `%s` where `is_obsolete: true` was read" % st_.ops[0].const.get("val"), where=tf.where(st_.line))
             ck.ob("ROLE", "obo/obsolete", guard is not None, "the obsolete flag is set %s" % ("iff the `is_obsolete` value equals \"true\"" if guard is not None else "without a comparison of the `is_obsolete` value with \"true\""), where=tf.where(t.line))
         rep = [(bi, t) for bi, t in tf.calls() if (t.callee.res or "").endswith("::replacement_mut")]
         for bi, t in rep:
